@@ -22,6 +22,7 @@ from sim.executors import (SimPoolBase, SimThreadPool, SimProcessPool,
                            sim_as_completed, sim_wait)
 from sim.linepreempt import LinePreempt
 from sim.runner import new_result
+from sim.treefault import TreeFaultPlan, faulty
 from sim.seams import patched, import_typhon
 from sim import digest_of
 from props.c06 import NpProxy
@@ -213,6 +214,13 @@ def gen_workload(tape):
     # the (documented, so far unused) threads argument of Collocator
     w["threads"] = tape.pick([None, None, 2, 3], "threads")
     # line pre-emption of pool workers (only the binned-path runs could have any)
+    # allocation failure at the tree seam: the k-th tree construction or radius
+    # query of the run raises MemoryError; that collocate() call may fail, the
+    # following ones on the same Collocator must be exact again
+    w["alloc_fault"] = None
+    if tape.flag("alloc_fault", 1, 8):
+        w["alloc_fault"] = [tape.pick(["build", "query"], "af_kind"),
+                            1 + tape.choice(4, "af_k")]
     w["line_stride"] = 17 + tape.choice(40, "linestride") if bigrun else 0
     w["line_phase"] = 1 + tape.choice(60, "linephase") if bigrun else 0
     w["store_stride"] = 1 + tape.choice(5, "storestride") if bigrun else 0
@@ -265,7 +273,15 @@ def run_one(tape, only=None):
     # argument is documented), the pool is the simulator's and its workers can
     # be pre-empted between two lines of typhon's own code
     cmod = _T["cmod"]
-    seams = [(gmod, "np", NpProxy(chooser))]
+    plan = TreeFaultPlan()
+    if w["alloc_fault"]:
+        if w["alloc_fault"][0] == "build":
+            plan.build_fail_at = w["alloc_fault"][1]
+        else:
+            plan.query_fail_at = w["alloc_fault"][1]
+    seams = [(gmod, "np", NpProxy(chooser)),
+             (gmod, "BallTree", faulty(gmod.BallTree, plan)),
+             (gmod, "KDTree", faulty(gmod.KDTree, plan))]
     for mod in (cmod, _cf):
         for name, fake in (("ThreadPoolExecutor", SimThreadPool),
                            ("ProcessPoolExecutor", SimProcessPool),
@@ -386,8 +402,13 @@ def run_one(tape, only=None):
             try:
                 out = coll.collocate(a1, a2, **kw)
             except Exception as e:  # noqa
+                if plan.take_fired():
+                    probe("call_failed_under_alloc_fault")     # allowed: it may fail
+                    history[-1] += "(failed)"
+                    continue
                 V.append(_viol(f"C04/exception/{type(e).__name__}", f"{desc}: {e}"[:500]))
                 continue
+            plan.take_fired()
             answers.append(digest_of(sorted(exp)))
             if exp and k > 0:
                 nontrivial += 1
@@ -470,6 +491,7 @@ def run_one(tape, only=None):
     res["wdigest"] = digest_of({k: v for k, v in w.items() if k not in ("perm", "perm_seed")})
     res["edigest"] = digest_of([w["perm"], w["perm_seed"], answers])
     res["faults"] = {"permutation_" + w["perm"]: 1}
+    res["faults"].update(plan.fired)
     res["kinds"] = [f"perm={w['perm']}"]
     res["counters"] = {"calls": len(w["calls"])}
     res["sample"] = {
